@@ -400,7 +400,11 @@ def simplify(s: Sym) -> Sym:
         if op == "not":
             x = xs[0]
             if x[0] == "op" and x[1] == "not":
-                return ("op", "truth", x[2])
+                inner = x[2]
+                # not not B is B itself when B is already a bool (comparison, negation, truth test)
+                if inner[0] == "op" and inner[1] in ("==", "<", "is", "in", "not", "truth"):
+                    return inner
+                return ("op", "truth", inner)
             return s
         if op in ("and", "or"):
             flat = []
